@@ -261,6 +261,38 @@ def r2(ctx, res):
     res.judge(True if (has(f"repr({ra})", pr)) else None, pr, "repr(repr_args)", reason="arguments rendered by Args.__repr__")
 
 
+@rule("R4", "a property wrapper's repr, evaluated on its own, rebuilds an equal wrapper")
+def r4(ctx, res):
+    """_Property.__eq__ compares some attributes; the repr may leave one of them out only when it holds the constructor's
+    default - any other omission condition (a state that binding produced) makes eval(repr(p)) differ from p."""
+    pr = ctx.func("_Property.__repr__")
+    peq = ctx.func("_Property.__eq__")
+    other = peq.params[1].name
+    compared = sorted({x.left.attr for x in walk_own(peq.body) if isinstance(x, ast.Compare) and len(x.ops) == 1
+                       and isinstance(x.ops[0], ast.Eq) and isinstance(x.left, ast.Attribute) and norm(x.left.value) == "self"
+                       and isinstance(x.comparators[0], ast.Attribute) and norm(x.comparators[0].value) == other
+                       and x.comparators[0].attr == x.left.attr})
+    res.floor("attributes_compared_by_property_eq", len(compared), 2)
+    init = ctx.func("_Property.__init__")
+    defaults = {q.name: (norm(q.default) if q.default is not None else None) for q in init.params}
+    P = Parents(pr)
+    n = 0
+    for call in walk_own(pr.body):
+        if not (isinstance(call, ast.Call) and isinstance(call.func, ast.Attribute) and call.func.attr == "pop" and call.args
+                and isinstance(call.args[0], ast.Constant) and call.args[0].value in compared):
+            continue
+        n += 1
+        field = call.args[0].value
+        gs = flat_guards(P, call)
+        implies_default = any((cmp_atom(t, pol) or (None,) * 3)[:3] in ((f"self.{field}", "==", defaults.get(field)),
+                                                                          (f"self.{field}", "is", defaults.get(field))) for t, pol in gs)
+        res.judge(True if implies_default else False, pr, f"`{field}` is left out of the repr only when it holds the constructor default",
+                  detail={"omitted_when": [("" if pol else "not ") + norm(t) for t, pol in gs], "constructor_default": defaults.get(field)},
+                  reason=f"`{field}` takes part in property equality, but the repr omits it in a state the constructor cannot "
+                         "reproduce: the wrapper rebuilt from the text is not equal to the original")
+    res.stat("conditional_omissions", n)
+
+
 # ---------------------------------------------------------------------- N1
 def _char_pred(test, var):
     """Translate a condition on a single character into a Python predicate
